@@ -5,6 +5,7 @@ use serde_json::Value;
 
 pub mod c01;
 pub mod c02;
+pub mod c02socks;
 pub mod c03;
 pub mod c03conn;
 pub mod c04;
